@@ -160,7 +160,7 @@ theorem C08_atomic_visibility (s : State) (t : Nat) :
 /-- the snapshot view is what the concrete model's snapshot read returns, also after collector
     passes (this is `snapshot_eq`, part of the refinement) -/
 theorem C08_concrete_snapshot {c : Sys} {s : State} (h : R c s) (k : Key) {r : TxRec} (hr : r ∈ c.reg) :
-    snapshotOf s r.seq k = (Sys.lastBefore (c.main k) r.seq).map absV := snapshot_eq h k hr
+    snapshotOf s r.seq k = (Sys.lastBefore (c.main k) r.seq).map absV := snapshot_eq h k hr (by simp)
 
 /-- non-vacuity: reader 2 began before the two-key commit and sees neither key change; reader 3
     begins after it and sees both -/
@@ -181,7 +181,7 @@ theorem C08_concurrent_read (acts : List Conc.Act) (i t : Nat) (k : Key) (o : Ou
     (hop : ((Conc.exec {} acts).thr i).op = some (.get t k)) :
     let σ := Conc.exec {} acts
     let th := σ.thr i
-    th.invAt ≤ th.witAt ∧ th.witAt ≤ σ.lin.length ∧ o = Spec.get (Conc.specAt σ th.witAt) t k :=
+    th.invAt ≤ th.witAt ∧ th.witAt ≤ σ.lin.length ∧ o = Spec.get (Conc.pureAt σ th.witAt) t k :=
   C06.C06_get_linearizable acts i t k o hret hop
 
 end FsDb.C08
